@@ -791,6 +791,7 @@ def run_manager_stage(ctx, quick):
         if bad:
             bad_cases.append((bad, sc))
     if first_inc and stats["inconclusive"] >= max(2, n // 4):
+        stats["unevaluable"] = True
         ctx.violation("TemporaryResourcesManager stage could not be evaluated on %d of %d scenarios (time-outs / hangs / "
                       "crashes): %s" % (stats["inconclusive"], n, first_inc[0]), {"kind": "manager", "scenario": first_inc[1]}, True)
     exprs = ["show_m %s" % common.coq_list(mg_coq_events(scs[i])) for i in usable]
@@ -869,10 +870,11 @@ def run_signal_stage(ctx):
         elif bad:
             ctx.violation(bad, {"kind": "signal", "scenario": sc}, True)
         masks.add(tuple(r.get("mask_at_spawn") or ()))
-    if first_inc and inconclusive >= 3:
+    unevaluable = bool(first_inc and inconclusive >= 3)
+    if unevaluable:
         ctx.violation("signal stage could not be evaluated on %d of %d scenarios: %s" % (inconclusive, len(scs), first_inc[0]),
                       {"kind": "signal", "scenario": first_inc[1]}, True)
-    return {"scenarios": len(scs), "inconclusive": inconclusive, "mask_at_spawn_seen": sorted(masks)}
+    return {"scenarios": len(scs), "inconclusive": inconclusive, "mask_at_spawn_seen": sorted(masks), "unevaluable": unevaluable}
 
 
 # ------------------------------------------------ Parallel + numpy life-cycle sample
@@ -895,10 +897,20 @@ def judge_np(r):
     if r.get("flags"):
         return None, "flags %s %s" % (r["flags"], r.get("stderr_tail", "")[-200:]), None
     seen = r.get("seen") or []
+    if r.get("mode") == "terminate-pending" and not seen and (r.get("workload") or {}).get("before"):
+        seen = [{"filename": "-", "exists": True}]   # the pending task never ran its body: judged by its result below
     if not seen or not all(x.get("filename") for x in seen):
         return None, "memmapping did not engage", None
     if not all(x["exists"] for x in seen):
         return "a worker received a memmap whose backing file was already deleted: %s" % [x for x in seen if not x["exists"]][:1], None, None
+    if r["mode"] == "terminate-pending":
+        w = r.get("workload") or {}
+        if not w.get("before"):
+            return None, "the pending task's argument had not been dumped when terminate() was called", None
+        if (w.get("res") or {}).get("f2") != 30000.0 or (w.get("res") or {}).get("f1") != "unblocked":
+            return ("terminate(kill_workers=False) with a pending user of a tracked temp file: the pending task ended with %r "
+                    "(its file was deleted under it)" % ((w.get("res") or {}).get("f2"),)), None, None
+        return None, None, None
     if r["mode"] == "normal":
         w = r.get("workload") or {}
         if w.get("out1") != [30000.0 + i for i in range(4)] or w.get("out2") != [60010.0 + i for i in range(3)]:
@@ -1041,10 +1053,18 @@ def run(ctx):
                            "correspondence": "Model/ResTracker.v main vs resource_tracker.main(fd)"}, found_input=False)
 
     lap('proofs+loop+model')
+    # once a stage has met time-outs/hangs the later (sampled) stages would only wait for the same hang again:
+    # they are skipped, the violation is already reported
+    hang = ["tracker-loop stage"] if n_skipped else []
+
+    def viol_count():
+        return len(ctx.violations)
+
     # client-side sample
     n_sc = 10 if quick else 80
     scs = [gen_scenario(ctx.rng) for _ in range(n_sc)]
-    cres = run_impl_cases(ctx, scs, script="c20_clients.py", workers=min(8, common.NCPU))
+    cres = (run_impl_cases(ctx, scs, script="c20_clients.py", workers=min(8, common.NCPU)) if not hang
+            else [{"skipped": "after " + hang[0]} for _ in scs])
     cl_viol, cl_inconclusive, cl_kills = 0, 0, 0
     retries = 0
     first_inc = None
@@ -1066,22 +1086,33 @@ def run(ctx):
             ctx.violation("client-side sample: " + bad, {"kind": "clients", "scenario": sc}, True)
         cl_kills += sum(1 for s in sc["script"] if s[1] == "kill")
     if first_inc and cl_inconclusive >= max(2, len(scs) // 4):
+        hang.append("client-side sample")
         ctx.violation("client-side sample could not be evaluated on %d of %d scenarios (time-outs / hangs): %s"
                       % (cl_inconclusive, len(scs), first_inc[0]), {"kind": "clients", "scenario": first_inc[1]}, True)
 
     lap('clients')
     # TemporaryResourcesManager, event by event, then kill / exit
-    mg_stats, mg_sample = run_manager_stage(ctx, quick)
+    if hang:
+        mg_stats, mg_sample = {"scenarios": 0, "model_evaluations": 0, "skipped": "after " + hang[0]}, None
+    else:
+        mg_stats, mg_sample = run_manager_stage(ctx, quick)
+        if mg_stats.get("unevaluable"):
+            hang.append("manager stage")
 
     lap('manager')
     # SIGINT / SIGTERM to the tracker spawned by the real ensure_running()
-    sg_stats = run_signal_stage(ctx)
+    sg_stats = run_signal_stage(ctx) if not hang else {"scenarios": 0, "skipped": "after " + hang[0]}
+    if sg_stats.get("unevaluable"):
+        hang.append("signal stage")
 
     lap('signals')
     # Parallel + numpy life-cycle (sampled; python3-vt)
-    modes = (["normal", "kill", "kill-rel", "kill-werror"] if quick
-             else ["normal"] * 3 + ["kill"] * 4 + ["kill-rel"] * 3 + ["kill-werror"])
-    with cf.ThreadPoolExecutor(min(6, len(modes))) as ex:
+    modes = (["normal", "kill", "kill-rel", "terminate-pending", "kill-werror"] if quick
+             else ["normal"] * 3 + ["kill"] * 4 + ["kill-rel"] * 3 + ["terminate-pending"] * 3 + ["kill-werror"])
+    if hang:
+        ctx.note("sampled stages skipped after time-outs in the %s" % hang[0])
+        modes = []
+    with cf.ThreadPoolExecutor(max(1, min(6, len(modes)))) as ex:
         nres = list(ex.map(lambda m: run_np(ctx, m), modes))
     np_inconclusive, np_ok, np_crashed = 0, 0, []
     np_retries = 0
@@ -1112,9 +1143,11 @@ def run(ctx):
 
     lap('numpy')
     # known finding: the witness of C20_eof_refuted_werror must still fail on the implementation
-    wr = run_impl_cases(ctx, [WERROR_WITNESS], workers=1)[0]
+    wr = run_impl_cases(ctx, [WERROR_WITNESS], workers=1)[0] if not hang else {"harness_error": "skipped"}
     wbad, wkey = judge_loop(WERROR_WITNESS, wr)
-    if wkey == KEY_WERROR:
+    if hang:
+        pass
+    elif wkey == KEY_WERROR:
         ctx.violation(wbad, {"kind": "oracle", "case": WERROR_WITNESS}, True, finding_key=KEY_WERROR)
     else:
         ctx.violation("witness of C20_eof_refuted_werror no longer fails on the implementation (%s): the model is stale"
@@ -1122,7 +1155,7 @@ def run(ctx):
                       {"kind": "correspondence", "case": WERROR_WITNESS,
                        "correspondence": "cleanup_all (unprotected warnings.warn in _unlink_resources)"}, found_input=False)
 
-    samples = [strip_case(cases[0]), strip_case(cases[len(cases) // 2]), scs[0], mg_sample]
+    samples = [strip_case(cases[0]), strip_case(cases[len(cases) // 2]), scs[0]] + ([mg_sample] if mg_sample else [])
     ctx.finish({
         "evaluations": len(cases) + len(scs) + len(modes) + 1 + mg_stats["scenarios"],
         "distinct_nontrivial": len(nontrivial),
